@@ -18,6 +18,7 @@ var runningRe = regexp.MustCompile(`running=(\d+)`)
 func TestC06(t *testing.T) {
 	res := newResult("C06", "scenarios: scripts of calls / notifications / batches larger and smaller than the limit (Concurrency 1,2,3,5), handlers gated (some held), failing notifications, built-in rpc.serverInfo calls, CancelRequest of calls waiting for a slot; each under many schedules. distinct = distinct event-log shape; non-trivial = more runnable requests than the limit at some point")
 	defer res.Write(t)
+	installStuckHandler(t, res, "not work-conserving: a request waits for ever although nothing is executing")
 	rng := newRNG()
 	var lines []string
 	var metas []any
@@ -314,8 +315,10 @@ func c07Members(rec string) []c07Member {
 }
 
 func TestC07(t *testing.T) {
+	defer func() { stuckHandler = nil }()
 	res := newResult("C07", "scenarios: histories of calls with ids drawn from a pool of 3 (frequent reuse), notifications, calls to unknown and reserved methods, in-batch duplicate ids, CancelRequest for in-flight / finished / unknown ids, optional Stop; handlers gated; each under many schedules. The inferred admit / deliver / cancel / stop events are replayed on the id-table machine and its verdicts and cancellations compared with the replies and with ctx.Err() seen by each handler. distinct = distinct event-log shape; non-trivial = some id used at least twice")
 	defer res.Write(t)
+	installStuckHandler(t, res, "server deadlocked while handling id reuse / cancellation")
 	rng := newRNG()
 	var lines []string
 	type expect struct {
